@@ -60,15 +60,19 @@ def run_shard(desc, ctx):
         run_case({'kind': 'model', 'seed': [desc['seed'], desc['shard'], i, 3]}, ctx)
     if desc['shard'] in (3, 11):
         run_case({'kind': 'big_export', 'seed': [desc['seed'], desc['shard']]}, ctx)
+    if desc['shard'] in (1, 6):
+        run_case({'kind': 'full_scale', 'seed': [desc['seed'], desc['shard']]}, ctx)
 
 
 def run_case(case, ctx):
     d = scratch_dir('c03_')
     try:
-        if case['kind'] == 'raw':
+        if case.get('kind', 'raw' if len(case.get('seed', [])) == 3 else 'model') == 'raw':
             _raw(case, ctx, d)
         elif case['kind'] == 'big_export':
             _big_export(case, ctx, d)
+        elif case['kind'] == 'full_scale':
+            _full_scale(case, ctx, d)
         else:
             _model(case, ctx, d)
     finally:
@@ -99,6 +103,34 @@ def _big_export(case, ctx, d):
         bad = [i for i in range(len(samples)) if got.shape == exp.shape and not np.array_equal(got[i], exp[i])][:5]
         ctx.violation('export_mismatch', case, 'export of %d spikes (%.1f MiB from one chunk): %s; first wrong rows %r' % (
             len(samples), exp[len(few):].nbytes / 2 ** 20, dd, bad), f)
+
+
+def _full_scale(case, ctx, d):
+    """Samples at the ends of the sample type's range, integer unit factors: the exported windows are windows times the factor."""
+    from phylib.io.traces import get_ephys_reader, export_waveforms
+    for dt in ('int16', 'uint16', 'int32', 'uint8'):
+        info = np.iinfo(dt)
+        n, nc, nsw = 40, 3, 4
+        A = np.empty((n, nc), dtype=dt)
+        A[0::2] = info.max
+        A[1::2] = info.min
+        A[:, 1] = (np.arange(n) * 7 + info.max // 2).astype(dt)
+        samples = np.array([3, 10, 20, 36], dtype=np.int64)
+        rows = np.tile(np.arange(nc), (len(samples), 1))
+        exp0 = np.stack([A[s - nsw // 2:s - nsw // 2 + nsw] for s in samples.tolist()]).astype(np.float64)
+        for factor in (2, 3, -3, np.int16(2), np.int64(5), np.uint8(3), 2.5):
+            rd = get_ephys_reader(A, sample_rate=10. / 600)
+            path = os.path.join(d, 'fs.npy')
+            ctx.count(1, key=hkey('full_scale', dt, repr(factor)), nontrivial=True, cell=('array', dt, 'full_scale'))
+            r = call(export_waveforms, path, rd, samples, rows, n_samples_waveforms=nsw, cache=False, sample2unit=factor)
+            f = {'route': 'export', 'full_scale': True, 'raw_dtype': dt, 'factor_type': type(factor).__name__}
+            sub_ = dict(case, dtype=dt, factor=repr(factor))
+            if not r.ok:
+                ctx.violation('route_raised', sub_, 'export_waveforms raised %r' % r.exc, dict(f, exc=r.exc_name), tb=r.tb)
+                continue
+            dd = same(np.load(path), exp0 * float(factor))
+            if dd:
+                ctx.violation('export_mismatch', sub_, '%s samples at the ends of their range, unit factor %r: %s' % (dt, factor, dd), f)
 
 
 def gen_raw(seed):
